@@ -6,7 +6,7 @@ set -u
 P=$(cd "$(dirname "$1")" && pwd)/$(basename "$1"); RX=$2; SUBJ=$3; BODY=${4:-}
 S=${SCRATCH:-/var/tmp/vfy-scratch}
 export PATH=/opt/veriftools/go1.26.8/bin:$PATH GOFLAGS=-mod=mod GOPROXY=off GOTOOLCHAIN=local GOWORK=off
-cd $S || exit 2
+"$(dirname "$0")"/mk_scratch.sh; cd $S || exit 2
 git checkout -q --detach $(git -C /repo rev-parse HEAD) || exit 2
 git status --short | grep -v spatial_reference_systems.go | grep -v '^??' && { echo "scratch not clean"; exit 2; }
 mkdir -p verifrepro; rm -f verifrepro/*_test.go; cp /verif/repro/*_test.go verifrepro/
